@@ -22,6 +22,7 @@ SchemaStrs(s) ==
 
 ErrLists(r) == (IF "de" \in DOMAIN r THEN {r.de} ELSE {}) \cup (IF "me" \in DOMAIN r THEN {r.me} ELSE {})
                \cup (IF "fe" \in DOMAIN r THEN {r.fe} ELSE {})
+               \cup {r[k] : k \in {"ce", "cme", "te", "tme"} \cap DOMAIN r}
 
 Leaks(s, v, r) ==
    LET ms == StrLeaves(v) \ SchemaStrs(s) IN
